@@ -153,7 +153,11 @@ class ThrRunner:
                 self.ctor_results.append(("e", err_kind(e)))
         if ctor_jobs or any(o.get("ctor") for o in scn.get("ops", [])):
             kind = scn.get("ctor_kind", "set")
-            kw["jobs"] = set(ctor_jobs) if kind == "set" else list(ctor_jobs)
+            # `jobs` is typed Iterable[Job]: containers and one-shot iterators alike
+            kw["jobs"] = {"set": set, "list": list, "tuple": tuple, "frozenset": frozenset,
+                          "gen": lambda l: (j for j in list(l)), "iter": lambda l: iter(list(l)),
+                          "filter": lambda l: filter(lambda j: True, list(l)),
+                          "dictkeys": lambda l: {j: 1 for j in l}.keys()}[kind](ctor_jobs)
         # the caller keeps (and may later mutate) the very collection it passed
         self.ctor_arg = kw.get("jobs")
         self.ctor_error = None
@@ -232,7 +236,14 @@ class ThrRunner:
             elif k == "get":
                 self.sched.get_jobs(py_tags(c.get("tags"), "set"), bool(c.get("any", False)))
             elif k == "str":
-                rec["len"] = len(str(self.sched))
+                text = str(self.sched)
+                rec["len"] = len(text)
+                # heading count, number of table rows, number of registered jobs at this very moment
+                rec["heading"] = int(text.split("#jobs=")[1].split("\n")[0])
+                lines_ = text.split("\n")
+                sep = max((i for i, ln in enumerate(lines_) if ln.strip() and set(ln.strip()) <= set("- ")), default=len(lines_) - 1)
+                rec["rows"] = sum(1 for ln in lines_[sep + 1:] if ln.strip())
+                rec["registered"] = len(self.sched.jobs)
             rec["ok"] = True
         except Exception as e:  # a scripted op may legitimately fail (e.g. delete twice)
             rec["ok"] = False
